@@ -61,3 +61,64 @@ def _(pos, cov, coverage):
     # tree-shaped heap model: a container cell always holds its own object; the native frame clause covers it)
     ensures(implies(len(cov) == 0, forall(lambda p=int: (p in coverage) == (p in old(coverage)))), label="uncovered-position-skipped")
     modifies(coverage)
+
+
+# C07: what Sample._load_cn_region counts for ONE CIGAR operation of an eligible read (slice inside its loops): the
+# sample's depth over the copy-number-neutral region (the denominator of the normalisation) is a per-base pile-up.
+
+@contract("aldy.sam.Sample._load_cn_region@one-cigar-op", native=False)
+def _(self, op, size, start):
+    types(self="Sample", op="int", size="int", start="int")
+    requires(size >= 0)
+    spans = op == 0 or op == 7 or op == 8 or op == 2          # M, =, X and D consume reference bases
+    # C07 "neutral-region depth of the sample" (per-base depth: every reference base an alignment operation spans -
+    # matches, mismatches and deleted bases - counts once; inserted / clipped bases do not)
+    ensures(implies(spans, forall(lambda p=int: implies(start <= p and p < start + size,
+                                                         p in self._dump_cn and self._dump_cn[p] == old(self._dump_cn[p] if p in self._dump_cn else 0) + 1))),
+            label="every-spanned-base-counted-once")
+    ensures(forall(lambda p=int: implies(p in old(self._dump_cn) and not (spans and start <= p and p < start + size),
+                                         p in self._dump_cn and self._dump_cn[p] == old(self._dump_cn[p]))),
+            label="other-positions-untouched")
+    ensures(implies(not spans, forall(lambda p=int: (p in self._dump_cn) == (p in old(self._dump_cn)))), label="unaligned-bases-not-counted")
+    ensures(implies(spans, result == start + size), label="cursor-advances-over-spanned-bases")
+    ensures(implies(op == 1 or op == 4 or op == 5 or op == 6, result == start), label="cursor-kept-by-inserted-and-clipped-bases")
+    modifies(self._dump_cn)
+
+
+# C07: the same pile-up in profile generation (Profile.get_sam_profile_data, slice inside its CIGAR loop): the
+# profile's region depths and neutral depth are sums of this per-base table, so sample and profile count alike.
+
+@contract("aldy.profile.Profile.get_sam_profile_data@one-cigar-op", native=False)
+def _(cov, c, op, size, start, s_start):
+    types(cov="Dict[str, DefaultDict[int, int, 'int']]", c="str", op="int", size="int", start="int", s_start="int")
+    # `cov` is a defaultdict of defaultdicts in the code (cov[c] always exists); the outer table is a plain map here
+    requires(size >= 0, c in cov)
+    spans = op == 0 or op == 7 or op == 8 or op == 2
+    ensures(implies(spans, forall(lambda p=int: implies(start <= p and p < start + size,
+                                                         p in cov[c] and cov[c][p] == old(cov[c][p] if p in cov[c] else 0) + 1))),
+            label="every-spanned-base-counted-once")
+    ensures(forall(lambda p=int: implies(p in old(cov[c]) and not (spans and start <= p and p < start + size),
+                                         p in cov[c] and cov[c][p] == old(cov[c][p]))),
+            label="other-positions-untouched")
+    ensures(implies(not spans, forall(lambda p=int: (p in cov[c]) == (p in old(cov[c])))), label="unaligned-bases-not-counted")
+    ensures(forall(lambda k=str: implies(k in old(cov) and k != c, k in cov and cov[k] == old(cov[k]))), label="other-chromosomes-untouched")
+    ensures(implies(spans, result[0] == start + size), label="cursor-advances-over-spanned-bases")
+    ensures(implies(op == 1 or op == 4 or op == 5 or op == 6, result[0] == start), label="cursor-kept-by-inserted-and-clipped-bases")
+    modifies(cov)
+
+
+# C07: "all custom copy-number-neutral regions": the region the profile is generated over - and records - is the
+# one the user gave; the built-in default of the build only when none was given.
+
+@contract("aldy.profile.Profile.get_sam_profile_data@neutral-region", native=False)
+def _(gene_regions, cn_region, genome):
+    types(gene_regions="Dict[Tuple[str, str, int], GRange]", cn_region="Optional[GRange]", genome="str")
+    requires(genome == "hg19" or genome == "hg38")
+    ensures(("neutral", "value", 0) in gene_regions, label="neutral-entry-present")
+    ensures(implies(cn_region is not None, gene_regions[("neutral", "value", 0)] == cn_region), label="custom-neutral-region-used")
+    ensures(implies(cn_region is None, gene_regions[("neutral", "value", 0)] == (GRange("22", 42547463, 42548249) if genome == "hg19" else GRange("22", 42151472, 42152258))),
+            label="default-neutral-region-of-the-build")
+    ensures(forall(lambda g=str, r=str, i=int: implies((g, r, i) in old(gene_regions) and (g, r, i) != ("neutral", "value", 0),
+                                                       (g, r, i) in gene_regions and gene_regions[(g, r, i)] == old(gene_regions[(g, r, i)]))),
+            label="gene-regions-untouched")
+    modifies(gene_regions)
